@@ -10,6 +10,7 @@ import (
 	"os"
 	"path/filepath"
 	"regexp"
+	"runtime/metrics"
 	"sort"
 	"strconv"
 	"strings"
@@ -79,6 +80,7 @@ type Ctx struct {
 	Start   time.Time
 	drv     Driver
 
+	peakMem     uint64 // sampled by memWatch
 	mu          sync.Mutex
 	known       map[string]KnownFinding
 	knownRE     []KnownFinding
@@ -113,6 +115,7 @@ func NewCtx(d Driver, tier string) *Ctx {
 	c := &Ctx{ID: d.ID(), Tier: tier, Seed: seed, Workers: 12, Start: time.Now(), drv: d,
 		known: map[string]KnownFinding{}, knownHits: map[string]int64{}, knownEx: map[string]string{}, knownDesc: map[string]string{}, knownKF: map[string]KnownFinding{}, knownFile: map[string]string{},
 		violSeen: map[string]int{}, Extra: map[string]any{}, Level: "model_checking"}
+	go c.memWatch()
 	// known findings: /verif/known_findings.json plus /verif/known_findings.d/*.json (committed, never written at run time)
 	files := []string{filepath.Join(VerifDir, "known_findings.json")}
 	more, _ := filepath.Glob(filepath.Join(VerifDir, "known_findings.d", "*.json"))
@@ -378,6 +381,32 @@ func trunc(s string, n int) string {
 }
 
 // Finish writes the evidence file and returns the exit code.
+// memWatch ends the run when the process' memory exceeds VERIF_MEM_GB (default 16): a call into the library under
+// test that was abandoned by its watchdog cannot be stopped in Go and may keep allocating until the kernel kills the
+// process (observed: 61 GB). The run then ends with the verdict reached so far: exit 1 if violations were already
+// reproduced and reported, exit 2 (machinery) otherwise.
+func (c *Ctx) memWatch() {
+	limit := uint64(16) << 30
+	if s := os.Getenv("VERIF_MEM_GB"); s != "" {
+		if v, err := strconv.ParseUint(s, 10, 64); err == nil && v > 0 {
+			limit = v << 30
+		}
+	}
+	sample := []metrics.Sample{{Name: "/memory/classes/total:bytes"}, {Name: "/memory/classes/heap/released:bytes"}}
+	for {
+		time.Sleep(200 * time.Millisecond)
+		metrics.Read(sample)
+		use := sample[0].Value.Uint64() - sample[1].Value.Uint64()
+		if use > c.peakMem {
+			c.peakMem = use
+		}
+		if use > limit {
+			c.Broken(fmt.Sprintf("process memory %d MB exceeds the limit of %d MB (a library call abandoned by its watchdog keeps allocating); run ended early", use>>20, limit>>20))
+			os.Exit(c.Finish())
+		}
+	}
+}
+
 func (c *Ctx) Finish() int {
 	c.mu.Lock()
 	defer c.mu.Unlock()
@@ -423,6 +452,7 @@ func (c *Ctx) Finish() int {
 	for k, v := range c.Extra {
 		cov[k] = v
 	}
+	cov["peak_process_memory_mb"] = c.peakMem >> 20
 	ev := map[string]any{
 		"property_id": c.ID, "tier": c.Tier, "seed": c.Seed, "level": c.Level, "coverage": cov,
 		"assumptions": c.Assumptions, "wall_s": time.Since(c.Start).Seconds(), "violations": c.violations,
